@@ -29,6 +29,8 @@ struct Rl {
     max_drops: usize,
     /// the executor may poll woken waiters late (this many ticks may pass first)
     late_ticks: usize,
+    /// depth bound of this configuration (None: the tier's default)
+    depth: Option<usize>,
 }
 
 struct X {
@@ -128,7 +130,7 @@ impl Scenario for Rl {
         self.prop
     }
     fn label(&self) -> String {
-        format!("ratelimiter window={} limit={} period={}ms timeout={}ms callers={}{}", wname(self.window), self.limit, PERIOD, self.timeout, self.callers, if self.late_ticks > 0 { " late-polls" } else { "" })
+        format!("ratelimiter window={} limit={} period={}ms timeout={}ms callers={}{}", wname(self.window), self.limit, PERIOD, self.timeout, self.callers, if self.late_ticks > 0 { " late-polls" } else if self.depth.is_some() { " long-run" } else { "" })
     }
     fn callers(&self) -> usize {
         self.callers
@@ -345,13 +347,19 @@ fn configs(prop: &'static str, tier: Tier) -> Vec<Rl> {
                     Tier::Quick => limit + 2,
                     Tier::Thorough => 4,
                 };
-                v.push(Rl { prop, window, limit, timeout, callers, max_ticks: tier.pick(9, 12), max_drops: tier.pick(1, 2), late_ticks: 0 });
+                v.push(Rl { prop, window, limit, timeout, callers, max_ticks: tier.pick(9, 12), max_drops: tier.pick(1, 2), late_ticks: 0, depth: None });
             }
+        }
+        // a long, drop-free run over more than two periods with limit 2 (quick tier: the
+        // general configurations stop at 9 ticks): bucket bookkeeping that drifts with the
+        // instants of the calls shows only after a call in the middle of the second period
+        if tier == Tier::Quick && window == WindowType::SlidingCounter {
+            v.push(Rl { prop, window, limit: 2, timeout: 10, callers: 4, max_ticks: 11, max_drops: 0, late_ticks: 0, depth: Some(18) });
         }
         // a late executor: waiters woken for the next window are polled up to two ticks late
         // (the decided-within-timeout clause presupposes prompt polling and is not judged here)
         for timeout in tier.pick(vec![100u64], vec![40, 100]) {
-            v.push(Rl { prop, window, limit: 1, timeout, callers: 3, max_ticks: tier.pick(8, 10), max_drops: tier.pick(0, 1), late_ticks: 2 });
+            v.push(Rl { prop, window, limit: 1, timeout, callers: 3, max_ticks: tier.pick(8, 10), max_drops: tier.pick(0, 1), late_ticks: 2, depth: None });
         }
     }
     v
@@ -388,8 +396,9 @@ fn main() {
                 }
             }
         }
-        let mut c = configs(prop, Tier::Quick);
-        c.extend(configs(prop, Tier::Thorough));
+        // thorough configurations first: same labels as quick ones, larger budgets
+        let mut c = configs(prop, Tier::Thorough);
+        c.extend(configs(prop, Tier::Quick));
         svcx::replay_main(prop, &path, c);
     }
     let tier = cli.tier;
@@ -405,7 +414,7 @@ fn main() {
     let depth = tier.pick(16, 22);
     rep.bounds = json!({"depth": depth, "period_ms": PERIOD, "grid_ms": 10, "max_ticks": tier.pick(9,12), "callers": "limit+2 (quick) / 4 (thorough)"});
     for cfg in configs(prop, tier) {
-        let opts = Opts { max_depth: depth, time_cap: Duration::from_secs(tier.pick(30, 600)), ..Opts::default() };
+        let opts = Opts { max_depth: cfg.depth.unwrap_or(depth), time_cap: Duration::from_secs(tier.pick(30, 600)), ..Opts::default() };
         let ex = svcx::explore(&cfg, &opts, &mut rep);
         if tier == Tier::Thorough && cfg.limit == 1 {
             svcx::validate_abstraction(&cfg, 7, &ex.fingerprints, ex.depth_completed, &mut rep);
